@@ -20,6 +20,7 @@ package configloader
 
 // The effective configuration map: every layer merged, lowest priority first, onto a map of its own; no layer's map is written.
 //@ func ConfigManager.loadConfig
+//@   locals res: github.com/furiko-io/furiko/pkg/runtime/configloader.Config
 //@   params c, configName
 //@   tags C19
 //@   requires c != nil
@@ -76,6 +77,7 @@ package configloader
 //@     && smHas[cc.m][iface(configv1alpha1.ConfigName(k))] && smVal[cc.m][iface(configv1alpha1.ConfigName(k))] == iface(entryOf(data[k]))
 
 //@ func ConfigMapLoader.unmarshalConfigMap
+//@   locals newConfigMap: *github.com/furiko-io/furiko/pkg/runtime/configloader.configCache
 //@   params c, data
 //@   tags C19
 //@   modifies smHas, smVal
